@@ -8,14 +8,28 @@
   writes, unloading by cache generation), `Trie.Commit`, `Trie.Hash`, `trie.New`.
 
   Parameters: `hashOf : CNode → Hash` (Keccak ∘ RLP of a collapsed node) and `small : CNode → Bool`
-  (`len(rlp) < 32`).  NOTHING is assumed about `small`.  About `hashOf`:
-    * `commit_reopen_get/insert/delete`, `cache_transparent*`, `no_missing_node_*`, `hash_is_reference`:
-      NO hypothesis (the invariant `Inv` is about what the store holds, not about how keys are made);
-    * `commit_keeps_invariant`, `expand_collapse`: `hashOf` injective (two different nodes under one key:
-      `TrieDatabase.insert` keeps the first, the second would be lost) and the store content-addressed;
-    * re-opening (`reopen_by_root`, the `reopen` step of `mixed_run_simulates`, `root_independent_of_commits`):
+  (`len(rlp) < 32`; the real test is `MptStore.rlpSmall`, built on C14's RLP encoder).
+  About `small`: NOTHING is assumed, except in `flush_reopen_fresh` (an embedded reference blob
+  contains no hash reference — proved for the real test: `rlp_small_embeds_no_hash`).
+  About `hashOf`, the bundle `HashOk hashOf` (LemoProofs.MptStoreLemmas):
+    `inj`  collision-free ON NORMAL NODES (`Norm`: what `decodeNode` returns and the hasher emits for
+           canonical tries).  NOT on the whole `CNode` algebra: `rlp.Encode` writes a nil child as
+           `valueNode(nil)`, so `short K .empty` / `short K (.value [])` share a blob and the unrestricted
+           statement is false of the real Keccak∘RLP for encoding reasons.  On `Norm` the item encoding
+           is injective (`node_blob_injective`), so `inj` is collision freedom of Keccak alone
+           (`keccak_rlp_collision_free`);
+    `ne`   no hash is the empty string.
+  Where it is used:
+    * `commit_reopen_get/insert/delete`, `cache_transparent*`, `hash_is_reference`,
+      `proof_verifies_present`: NO hypothesis on `hashOf` (the invariant `Inv` is about what the store
+      holds, not about how keys are made);
+    * `commit_keeps_invariant`, `expand_collapse`, `db_*`, the history theorems: `HashOk` and a
+      content-addressed store `Sound` (keys are `hashOf` of their blob, blobs are normal) — two different
+      nodes under one key: `TrieDatabase.insert` keeps the first, the second would be lost
+      (`collisionDemo`);
+    * re-opening (`reopen_by_root`, the `reopen` step of the history theorems, `flush_reopen_fresh`):
       additionally no node hashes to the zero hash (`trie.New` opens `common.Hash{}` as the EMPTY trie);
-    * `root_binds_content` (uniqueness of the expansion): `hashOf` injective.
+    * `root_binds_content`, `proof_binds_value` (uniqueness of the expansion): `HashOk`.
 
   The simulation relation is `Inv hs s top p n` (`LemoProofs.MptStoreLemmas`): the partially resolved
   trie `p` over the store `s` ABSTRACTS to the resolved trie `n` of `LemoModel.Mpt`: same shape where
@@ -28,9 +42,10 @@ import LemoModel.MptStore
 import LemoProofs.Lemmas.Mpt
 import LemoProofs.Lemmas.MptStore
 import LemoProofs.Lemmas.MptDb
+import LemoProofs.Lemmas.MptCodec
 namespace LemoProofs.C17
 open LemoModel LemoModel.Mpt LemoModel.MptStore LemoProofs.MptLemmas LemoProofs.MptStoreLemmas
-open LemoProofs.MptDbLemmas
+open LemoProofs.MptDbLemmas LemoProofs.MptCodecLemmas
 
 section single
 variable (small : CNode → Bool) (hashOf : CNode → Hash)
@@ -385,6 +400,30 @@ theorem no_missing_node (hH : HashOk hashOf) (hz : ∀ c, hashOf c ≠ zeroHash)
     ⟨{ cachelimit := limit }, s⟩ .empty hS .empty (.empty true) hk
   exact ⟨st', h⟩
 
+
+/-- **mixed_run_reads_last_write**: after any history of updates, deletes, reads, commits, hash calls,
+    evictions and re-openings, `TryGet` on the (partially resolved) trie returns, for every key, the
+    last value written (`none` if never written, deleted or last written empty). -/
+theorem mixed_run_reads_last_write (hH : HashOk hashOf) (hz : ∀ c, hashOf c ≠ zeroHash)
+    (L : Nat) (hf : 2 * L + 2 ≤ fuel) (ops : List SOp) (s : Store) (limit : Nat) (hS : Sound hashOf s)
+    (hk : ∀ op, op ∈ ops → ∀ k, op.key? = some k → TermKey k ∧ k.length ≤ L)
+    (k : List Nib) (hk1 : TermKey k) (hk2 : k.length ≤ L) :
+    ∃ st' t'', runS small hashOf fuel ⟨{ cachelimit := limit }, s⟩ ops = .ok st' ∧
+      st'.t.get st'.s fuel k = .ok (spec (fun _ => none) (muts ops) k, t'') := by
+  obtain ⟨st', n', a1, a2, a3, _, a5, _⟩ := mixed_run_simulates small hashOf fuel hH hz L hf ops
+    ⟨{ cachelimit := limit }, s⟩ .empty hS .empty (.empty true) hk
+  obtain ⟨m, c1, _, c3⟩ := run_spec (muts ops) .empty (fun _ => none) .empty
+    (fun k _ => by simp [Mpt.get, toRes]) (muts_keys hk)
+  rw [a2] at c1
+  simp only [Option.some.injEq] at c1
+  subst c1
+  obtain ⟨hP, hN, _⟩ := canon_placed_nes n' a3
+  rcases commit_reopen_get small hashOf st'.s st'.t n' k fuel a5 hP hN (by omega) with ⟨h1, _⟩ | ⟨t'', h1, _⟩
+  · exact absurd h1 (get_no_panic n' k a3 hk1)
+  · refine ⟨st', t'', a1, ?_⟩
+    rw [h1, c3 k hk1]
+    cases spec (fun _ => none) (muts ops) k <;> rfl
+
 /-- **root_independent_of_commits**: two histories with the same final content — whatever the order of
     the updates, the overwritten and deleted keys, the cache limits, and wherever `Commit`, `Hash`,
     reads (which resolve nodes) and re-openings by root are interleaved, over whatever
@@ -508,7 +547,7 @@ theorem db_flush_transparent (db db' : Db) (root : Hash) (hOk : DbOk hashOf db) 
     re-opened trie abstracts to `n` — so (`commit_reopen_*`, `no_missing_node`) every later operation
     behaves as on `n`. -/
 theorem flush_reopen_fresh (hH : HashOk hashOf) (hz : ∀ c, hashOf c ≠ zeroHash)
-    (hsmall : ∀ c, small c = true → noHashC c) (db db' : Db) (hOk : DbOk hashOf db)
+    (hsmall : ∀ m : Node, small (refKids (baseH small hashOf) m) = true → noHashC (refKids (baseH small hashOf) m)) (db db' : Db) (hOk : DbOk hashOf db)
     (hS : Sound hashOf db.node) (n : Node) (hC : Canon n)
     (hSt : Stored (baseH small hashOf) db.node true n) (hCl : Closed (baseH small hashOf) db.node n)
     (h : db.commit (refRoot (baseH small hashOf) n) = .ok db') :
@@ -563,7 +602,7 @@ theorem flush_reopen_fresh (hH : HashOk hashOf) (hz : ∀ c, hashOf c ≠ zeroHa
     `TrieDatabase` over the same disk and `trie.New(root)`: the re-opened trie abstracts to the same
     resolved trie as the trie that was committed. -/
 theorem commit_flush_reopen_fresh (hH : HashOk hashOf) (hz : ∀ c, hashOf c ≠ zeroHash)
-    (hsmall : ∀ c, small c = true → noHashC c) (db : Db) (hOk : DbOk hashOf db)
+    (hsmall : ∀ m : Node, small (refKids (baseH small hashOf) m) = true → noHashC (refKids (baseH small hashOf) m)) (db : Db) (hOk : DbOk hashOf db)
     (hS : Sound hashOf db.node) (t : Trie) (n : Node) (hA : Abs small hashOf db.node t.root n) (hC : Canon n) :
     ∃ root t' ws, t.commit small hashOf = .ok (root, t', ws) ∧
       ∀ db2, (db.insertAll ws).commit root = .ok db2 →
@@ -577,7 +616,7 @@ def leafSmall : CNode → Bool
   | .short _ (.value v) => decide (v.length < 3)
   | _ => false
 
-example : ∀ c, leafSmall c = true → noHashC c := by
+theorem leafSmall_noHash : ∀ c, leafSmall c = true → noHashC c := by
   intro c h
   cases c with
   | short K c' => cases c' <;> simp [leafSmall] at h <;> trivial
@@ -688,6 +727,82 @@ theorem proof_binds_value_legacy_partial (hH : HashOk hashOf) (r : Store)
   proof_sound_core small hashOf hH false r (Or.inr hr) hN n hC key fuel
 
 end proofs
+
+/-! ### the node codec: what the hypotheses `HashOk` and `small ⇒ no hash inside` stand for -/
+
+section codec
+
+/-- **compact_key_roundtrip**: `compactToHex(hexToCompact(K)) = K` for every hex key (nibbles, optional
+    terminator) — the key of a short node survives the database -/
+theorem compact_key_roundtrip (K : List Nib) (hK : KeyOk K) : compactToHex (hexToCompact K) = some K :=
+  compact_roundtrip K hK
+
+/-- **node_blob_injective**: the RLP bytes `hasher.store` writes determine the collapsed node, on normal
+    nodes (`Norm`: what `decodeNode` returns / the hasher emits for canonical tries) whose bytes are
+    bytes and keys hex keys (sizes < 2^64 as in C14's `decode_encode`).  On the WHOLE `CNode` algebra
+    this is false (nil child = `valueNode(nil)`), which is why `HashOk` is stated on `Norm`. -/
+theorem node_blob_injective (a b : CNode) (na : Norm a) (nb : Norm b) (ba : BytesOk a) (bb : BytesOk b)
+    (la : (nodeRlp a).length < 2 ^ 64) (lb : (nodeRlp b).length < 2 ^ 64)
+    (h : nodeRlp a = nodeRlp b) : a = b := nodeRlp_inj a b na nb ba bb la lb h
+
+/-- **keccak_rlp_collision_free**: for `hashOf = K ∘ rlp` the collision freedom assumed in `HashOk` is
+    collision freedom of `K` (Keccak256) alone -/
+theorem keccak_rlp_collision_free (K : List UInt8 → Hash) (hK : ∀ x y, K x = K y → x = y)
+    (a b : CNode) (na : Norm a) (nb : Norm b) (ba : BytesOk a) (bb : BytesOk b)
+    (la : (nodeRlp a).length < 2 ^ 64) (lb : (nodeRlp b).length < 2 ^ 64)
+    (h : K (nodeRlp a) = K (nodeRlp b)) : a = b :=
+  nodeRlp_inj a b na nb ba bb la lb (hK _ _ h)
+
+theorem hash32_rawN (n : Node) : Hash32 (rawN n) := by
+  induction n with
+  | empty => trivial
+  | value v => trivial
+  | short K c ih => exact ih
+  | full ch ih => exact fun i => ih i
+
+theorem hash32_ref (hs : Hasher) (hlen : ∀ c, (hs.hashOf c).length = 32) (n : Node) :
+    (∀ force, Hash32 (refC hs n force)) ∧ Hash32 (refKids hs n) := by
+  have sr : ∀ c force, Hash32 c → Hash32 (storeRef hs c none force) := by
+    intro c force hc
+    cases c with
+    | empty => exact hc
+    | hash h => exact hc
+    | value v => simp only [storeRef]; split <;> first | exact hc | exact hlen _
+    | short K c => simp only [storeRef]; split <;> first | exact hc | exact hlen _
+    | full ch => simp only [storeRef]; split <;> first | exact hc | exact hlen _
+  induction n with
+  | empty => exact ⟨fun _ => trivial, trivial⟩
+  | value v => exact ⟨fun f => sr _ f trivial, trivial⟩
+  | short K c ih =>
+    have hk : Hash32 (refKids hs (.short K c)) := by
+      rw [refKids_short]
+      show Hash32 (childRef hs c)
+      cases c with
+      | value v => trivial
+      | empty => exact ih.1 false
+      | short K' c' => exact ih.1 false
+      | full ch' => exact ih.1 false
+    exact ⟨fun f => by rw [refC_short]; exact sr _ f hk, hk⟩
+  | full ch ih =>
+    have hk : Hash32 (refKids hs (.full ch)) := by
+      rw [refKids_full]
+      intro i
+      by_cases hi : i = 16
+      · simp only [hi, if_true]; exact hash32_rawN _
+      · simp only [hi, if_false]; exact (ih i).1 false
+    exact ⟨fun f => by rw [refC_full]; exact sr _ f hk, hk⟩
+
+/-- **rlp_small_embeds_no_hash**: the REAL embedding test `len(rlp) < 32` satisfies the hypothesis of
+    `flush_reopen_fresh` as soon as hashes are 32 bytes long: a node that is embedded contains no hash
+    reference (a reference alone takes 33 bytes). -/
+theorem rlp_small_embeds_no_hash (hashOf : CNode → Hash) (hlen : ∀ c, (hashOf c).length = 32) (m : Node) :
+    rlpSmall (refKids (baseH rlpSmall hashOf) m) = true → noHashC (refKids (baseH rlpSmall hashOf) m) := by
+  intro h
+  apply small_noHash _ (hash32_ref (baseH rlpSmall hashOf) hlen m).2
+  have : (nodeRlp (refKids (baseH rlpSmall hashOf) m)).length < 32 := by simpa [rlpSmall] using h
+  omega
+
+end codec
 
 /-! ### non-vacuity and witnesses -/
 
